@@ -33,6 +33,15 @@ LEVEL_NOTE = ('theorems are about the Gallina models Model/SHT.v, Model/SHTFast.
 TECHNIQUE = 'Coq proof (translation validation of the two transform pipelines) + exact table obligations + differential oracles'
 
 VARIANTS = [dict(base=b, stacked=s, rev=r) for b in (1, 4) for s in (0, 1) for r in (0, 1)]
+# further constructor options: larger padding multiple, the precision hint (must be inert), the deprecated alias class
+EXTRA_VARIANTS = [dict(base=8, stacked=1, rev=0), dict(base=1, stacked=0, rev=0, prec='float32'),
+                  dict(base=4, stacked=1, rev=1, prec='highest'), dict(base=1, stacked=0, rev=0, alias=1),
+                  dict(base=8, stacked=0, rev=1, prec='bfloat16')]
+
+
+def vtag(v):
+    return 'base=%d,stacked=%d,rev=%d' % (v['base'], v['stacked'], v['rev']) + (',prec=' + v['prec'] if v.get('prec') else '') + (
+        ',alias' if v.get('alias') else '')
 
 
 def E(x, M, L, fshape):
@@ -64,9 +73,12 @@ def base_configs(tier):
           dict(M=4, L=5, I=13, J=7, spacing='gauss', offset=0.0, radius=1.0),
           # longitude_nodes = 2 * (longitude_wavenumbers - 1): the highest zonal wavenumber sits at the Nyquist frequency
           dict(M=5, L=6, I=8, J=6, spacing='gauss', offset=0.0, radius=1.0),
-          dict(M=3, L=4, I=4, J=4, spacing='gauss', offset=0.1, radius=7.0 / 3.0)]
+          dict(M=3, L=4, I=4, J=4, spacing='gauss', offset=0.1, radius=7.0 / 3.0),
+          # wide grid, total_wavenumbers > longitude_wavenumbers + 1, large radius, offset outside [0, 2 pi)
+          dict(M=2, L=5, I=48, J=5, spacing='gauss', offset=7.0, radius=6.37122e6)]
     if tier == 'thorough':
-        cs += [dict(M=2, L=2, I=3, J=2, spacing='gauss', offset=0.0, radius=1.0),
+        cs += [dict(M=3, L=4, I=7, J=100, spacing='gauss', offset=-0.3, radius=1e-3),   # tall grid
+               dict(M=2, L=7, I=4, J=13, spacing='equiangular', offset=0.0, radius=1.0),dict(M=2, L=2, I=3, J=2, spacing='gauss', offset=0.0, radius=1.0),
                dict(M=6, L=7, I=12, J=9, spacing='gauss', offset=0.1, radius=1.0),
                dict(M=8, L=9, I=25, J=13, spacing='gauss', offset=0.0, radius=7.0 / 3.0),
                dict(M=5, L=9, I=9, J=9, spacing='equiangular', offset=0.0, radius=1.0),
@@ -93,9 +105,10 @@ def generate(ctx):
     for n, c in enumerate(base_configs(ctx.tier)):
         ctx.count(f"M={c['M']}"); ctx.count('spacing:' + c['spacing'])
         big = c['M'] >= 12
-        yield 'related', {'cfg': c, 'variants': VARIANTS}
+        yield 'related', {'cfg': c, 'variants': VARIANTS + EXTRA_VARIANTS}
         vs = VARIANTS if (ctx.tier == 'thorough' and not big) else [VARIANTS[(3 * n + k * 3) % 8] for k in range(3)]
         if big: vs = [VARIANTS[(n + 2) % 8], VARIANTS[(n + 5) % 8]]
+        elif n % 4 == 1 or ctx.tier == 'thorough': vs = vs + [EXTRA_VARIANTS[(n // 4) % len(EXTRA_VARIANTS)]]
         for v in vs:
             fc = dict(c, impl='fast', **v)
             seed = int(rng.integers(0, 2 ** 31))
@@ -103,12 +116,13 @@ def generate(ctx):
             yield 'transforms', {'cfg': fc, 'seed': seed, 'max_onehot': 0 if not big else 4,
                                  'max_model_analysis': 6 if not big else 1, 'lead': [[], [2], [3]][n % 3] if not big else [],
                                  'dense_analysis_model': not (c['M'] >= 20)}
-            ctx.count('variant:base=%d,stacked=%d,rev=%d' % (v['base'], v['stacked'], v['rev']))
+            ctx.count('variant:' + vtag(v))
         if c['spacing'] != 'equiangular_with_poles' and c['M'] >= 2:
             yield 'jit_static', {'cfg': c, 'seed': int(rng.integers(0, 2 ** 31))}
         yield 'equiv', {'cfg': c, 'seed': int(rng.integers(0, 2 ** 31)), 'lead': [[], [2]][n % 2],
                         'variants': ([VARIANTS[0], VARIANTS[7], VARIANTS[4]] if big else VARIANTS if ctx.tier == 'thorough'
-                                     else [VARIANTS[(n + k) % 8] for k in (0, 3, 5, 6)]),
+                                     else [VARIANTS[(n + k) % 8] for k in (0, 3, 5, 6)] + [EXTRA_VARIANTS[n % len(EXTRA_VARIANTS)]])
+                                    + (EXTRA_VARIANTS if (ctx.tier == 'thorough' and not big) else []),
                         'full_methods_variants': [0] if (big or ctx.tier == 'quick') else [n % 8, (n + 5) % 8]}
 
 
@@ -156,6 +170,23 @@ def r_jit_static(ctx, a):
             ctx.oracle_close(f'{name} = E(reference) for uv_nodal_to_vor_div_modal in a call sequence',
                              Pi(vor, c['M'], c['L']), ref[0], scale=sc, tol_rel=1e-10)
 
+    # two grids differing in ONE non-layout field (radius; longitude offset), used in both orders in this process
+    kw2 = dict(kw, radius=2.0 * c['radius']); kw3 = dict(kw, longitude_offset=c['offset'] + 0.5)
+    for impl, nm in ((sh.RealSphericalHarmonics, 'real'), (sh.FastSphericalHarmonics, 'fast')):
+        g1 = sh.Grid(spherical_harmonics_impl=impl, **kw); g2 = sh.Grid(spherical_harmonics_impl=impl, **kw2)
+        g3 = sh.Grid(spherical_harmonics_impl=impl, **kw3)
+        uu, vv = pad(u, g1.nodal_shape), pad(v, g1.nodal_shape)
+        outs = []
+        for g in (g2, g1, g2, g3, g1):
+            vor, div = sh.uv_nodal_to_vor_div_modal(g, jnp.asarray(uu), jnp.asarray(vv))
+            outs.append((np.asarray(vor), np.asarray(div)))
+        sc = max(float(np.abs(outs[1][0]).max()), 1e-300)
+        ctx.oracle_close(f'doubling the radius halves vorticity / divergence, whatever the call order [{nm}]',
+                         2 * outs[0][0], outs[1][0], scale=sc, tol_rel=2.0 ** -44)
+        ctx.oracle(f'results do not depend on what was called before (radius r, 2r, offset) [{nm}]',
+                   bool(np.array_equal(outs[0][0], outs[2][0]) and np.array_equal(outs[1][1], outs[4][1])), None)
+        ctx.oracle_close(f'the longitude offset only relabels the nodes: same vorticity [{nm}]', outs[3][0], outs[1][0], scale=sc, tol_rel=2.0 ** -44)
+
 
 def r_default_stacked(ctx, a):
     jax, jnp, sh, fourier, al = base.J_()
@@ -180,7 +211,7 @@ def r_related(ctx, a):
         ff, pf, wf = base.tables(gf)
         rows, cols = gf.modal_shape; If, Jf = gf.nodal_shape
         Mh = rows // 2
-        name = 'tables_related[base=%d,stacked=%d,rev=%d]: ' % (v['base'], v['stacked'], v['rev'])
+        name = 'tables_related[' + vtag(v) + ']: '
         if v['stacked']:
             ok_shape = ff.shape == (If, 2, Mh)
             # basis: f = np.reshape(f, (-1, 2, n/2), order='F'); model: stack_f
@@ -205,7 +236,7 @@ def r_related(ctx, a):
                              bool((pf[M:] == 0).all() and (pf[:, Jn:] == 0).all() and (pf[:, :, L:] == 0).all()), None)
         ctx.table_obligation(name + 'tr_w_in  (bitwise)', bool(np.array_equal(wf[:Jn], wr)), None)
         ctx.table_obligation(name + 'tr_w_out (padding exactly zero)', bool((wf[Jn:] == 0).all()), None)
-        f_unstacked[(v['base'], v['rev'], v['stacked'])] = f2
+        if not (v.get('prec') or v.get('alias')): f_unstacked[(v['base'], v['rev'], v['stacked'])] = f2
     # option independence of the tables themselves
     for (b, r, s), f2 in f_unstacked.items():
         o = f_unstacked.get((b, r, 1 - s))
@@ -244,6 +275,11 @@ def r_equiv(ctx, a):
     x = rng.integers(-8, 9, size=lead + (K, L)).astype(np.float64)
     x2 = rng.integers(-8, 9, size=lead + (K, L)).astype(np.float64)
     z = rng.integers(-8, 9, size=lead + (I, Jn)).astype(np.float64) / 4
+    if lead:
+        # structured data in the last slice: only the highest retained wavenumbers (zonal and sectoral ends), a constant field
+        x[-1] = 0; x[-1, K - 1, L - 1] = 3; x[-1, 0, L - 1] = -2; x[-1, K - 1, M - 1] = 1
+        x2[-1] = 0; x2[-1, max(K - 2, 0), L - 1] = 1
+        z[-1] = 1.0
     cr = dict(c, impl='real')
     B = int(np.prod(lead)) if lead else 1
     s_syn = base.synth_scale(cr, gr, x.reshape((B, K, L)))
@@ -259,10 +295,13 @@ def r_equiv(ctx, a):
         fc = dict(c, impl='fast', **v)
         gf = base.make_grid(fc)
         fs = gf.modal_shape; ns = gf.nodal_shape
-        tagv = 'base=%d,stacked=%d,rev=%d' % (v['base'], v['stacked'], v['rev'])
+        tagv = vtag(v)
         Ex = E(x, M, L, fs); pz = pad(z, ns)
         zf = base.to_nodal(gf, Ex); yf = base.to_modal(gf, pz)
         ctx.oracle_close('to_nodal: fast(E x) = pad(real(x))', zf, pad(zr, ns), scale=s_syn)
+        if vi == 0:
+            ctx.oracle('fast to_nodal / to_modal repeated after other calls are bit-identical',
+                       bool(np.array_equal(base.to_nodal(gf, Ex), zf) and np.array_equal(base.to_modal(gf, pz), yf)), None)
         ctx.oracle_close('to_modal: fast(pad z) = E(real(z))', yf, E(yr, M, L, fs), scale=s_ana)
         ctx.oracle('to_nodal(fast): padded nodal entries exactly zero',
                    bool((zf[..., I:, :] == 0).all() and (zf[..., :, Jn:] == 0).all()), None)
@@ -328,6 +367,11 @@ def r_equiv(ctx, a):
             # composite functions built on the grid (jitted per grid: thorough only)
             vor = x * np.asarray(gr.mask); div = x2 * np.asarray(gr.mask)
             vor[..., 0, 0] = 0; div[..., 0, 0] = 0
+            ufn = sh.vor_div_to_uv_nodal(gf, jnp.asarray(E(vor, M, L, fs)), jnp.asarray(E(div, M, L, fs)), clip=False)
+            urn = sh.vor_div_to_uv_nodal(gr, jnp.asarray(vor), jnp.asarray(div), clip=False)
+            sun = float(np.abs(np.asarray(urn[0])).max() + np.abs(np.asarray(urn[1])).max()) * 64 + 1.0
+            ctx.oracle_close('vor_div_to_uv_nodal(clip=False): crop(fast) = real (u)', crop(np.asarray(ufn[0]), I, Jn), np.asarray(urn[0]), scale=sun)
+            ctx.oracle_close('vor_div_to_uv_nodal(clip=False): crop(fast) = real (v)', crop(np.asarray(ufn[1]), I, Jn), np.asarray(urn[1]), scale=sun)
             uf = sh.vor_div_to_uv_nodal(gf, jnp.asarray(E(vor, M, L, fs)), jnp.asarray(E(div, M, L, fs)))
             ur = sh.vor_div_to_uv_nodal(gr, jnp.asarray(vor), jnp.asarray(div))
             su = float(np.abs(np.asarray(ur[0])).max() + np.abs(np.asarray(ur[1])).max()) * 64 + 1.0
